@@ -100,6 +100,9 @@ func (e *Exec) callBuiltin(fr *frame, b *ssa.Builtin, args []Value, cc *ssa.Call
 		}
 		return nil
 	case "clear":
+		if e.spec > 0 {
+			e.abortSpec("clear")
+		}
 		switch x := args[0].(type) {
 		case *MapObj:
 			if x != nil {
@@ -113,6 +116,9 @@ func (e *Exec) callBuiltin(fr *frame, b *ssa.Builtin, args []Value, cc *ssa.Call
 		}
 		return nil
 	case "close":
+		if e.spec > 0 {
+			e.abortSpec("close")
+		}
 		ch, _ := args[0].(*ChanObj)
 		if ch == nil {
 			e.goPanicStr("close of nil channel")
@@ -123,8 +129,14 @@ func (e *Exec) callBuiltin(fr *frame, b *ssa.Builtin, args []Value, cc *ssa.Call
 		ch.closed = true
 		return nil
 	case "panic":
+		if e.spec > 0 {
+			e.abortSpec("panic")
+		}
 		panic(&goPanic{val: args[0], descr: e.describePanic(args[0])})
 	case "recover":
+		if e.spec > 0 {
+			e.abortSpec("recover")
+		}
 		// recover() is only effective when called directly by a deferred function
 		caller := fr.caller
 		if caller != nil && caller.panicking != nil && !caller.recovered {
@@ -226,6 +238,9 @@ func (e *Exec) newByteSlice(bs []*Term) Slice {
 
 func (e *Exec) callExternal(fr *frame, fn *ssa.Function, args []Value) Value {
 	name := fn.String()
+	if e.spec > 0 && !pureIntrinsic(name) {
+		e.abortSpec("impure external " + name)
+	}
 	if h := e.prog.intrinsics[name]; h != nil {
 		return h(e, fr, args)
 	}
@@ -276,4 +291,28 @@ func (e *Exec) zeroOrOpaque(t types.Type) Value {
 		}
 	}()
 	return e.zero(t)
+}
+
+var pureIntrinsicNames = map[string]bool{
+	"fmt.Errorf": true, "fmt.Sprintf": true, "fmt.Sprint": true, "errors.New": true, "errors.Is": true, "errors.Unwrap": true,
+	"bytes.Equal": true, "bytes.Compare": true, "strings.Compare": true, "strings.Index": true, "strings.Clone": true,
+	"reflect.DeepEqual": true, "context.Background": true, "context.TODO": true,
+	symPkg + ".B2U": true, symPkg + ".Thorough": true,
+	"(*sync.Mutex).Lock": true, "(*sync.Mutex).Unlock": true, "(*sync.RWMutex).Lock": true, "(*sync.RWMutex).Unlock": true,
+	"(*sync.RWMutex).RLock": true, "(*sync.RWMutex).RUnlock": true, "runtime.KeepAlive": true,
+}
+
+func pureIntrinsic(name string) bool {
+	if pureIntrinsicNames[name] {
+		return true
+	}
+	for _, p := range []string{"internal/bytealg.", "internal/stringslite.", "math/bits.", "unsafe.", "sync/atomic.Load"} {
+		if strings.HasPrefix(name, p) {
+			return true
+		}
+	}
+	if strings.HasPrefix(name, "(*sync/atomic.") && strings.HasSuffix(name, ").Load") {
+		return true
+	}
+	return false
 }
